@@ -160,6 +160,77 @@ theorem C15_update_change_is_sent (stored new : Entry) (hs : CIDistinct stored) 
   have h2 : vs.isEmpty = false := by cases vs <;> simp_all
   simp [attrMods, h1, h2, hd]
 
+/-- **C15 (the request is one a directory accepts).** `applyMods` is a total specification: it
+    does not model the server rejecting an ADD to an attribute that is present or a DELETE /
+    REPLACE-with-nothing of one that is absent.  `Admin.update` never sends such a request: an ADD
+    goes to an attribute that is not stored and carries values, a DELETE removes a whole attribute
+    that is stored, a REPLACE carries values and goes to an attribute that is stored; every
+    attribute is modified by one operation. -/
+theorem C15_update_request_valid (stored new : Entry) (hs : CIDistinct stored) (hn : CIDistinct new)
+    (he : NoEmpty stored) :
+    ∀ p ∈ adminUpdateMods stored new, ∃ m, p.2 = [m] ∧
+      (m.1 = ModOp.add → valuesOf p.1 stored = none ∧ m.2 ≠ []) ∧
+      (m.1 = ModOp.delete → m.2 = [] ∧ valuesOf p.1 stored ≠ none) ∧
+      (m.1 = ModOp.replace → m.2 ≠ [] ∧ valuesOf p.1 stored ≠ none) := by
+  intro p hp
+  rw [adminUpdateMods_eq_spec stored new hs hn] at hp
+  unfold diffSpec at hp
+  rw [List.mem_append] at hp
+  cases hp with
+  | inl h =>
+    rw [List.mem_flatMap] at h
+    obtain ⟨q, hq, hpq⟩ := h
+    unfold specRow at hpq
+    rw [List.mem_map] at hpq
+    obtain ⟨x, hx, hxp⟩ := hpq
+    rw [valuesOf_fetch_mem stored new q hq] at hx
+    subst hxp
+    refine ⟨x, rfl, ?_⟩
+    simp only
+    unfold attrMods at hx
+    cases hc : valuesOf q.1 stored with
+    | none =>
+      rw [hc] at hx
+      by_cases hv : q.2.isEmpty = true
+      · simp [hv] at hx
+      · have hv' : q.2.isEmpty = false := by simpa using hv
+        simp [hv'] at hx
+        subst hx
+        have : q.2 ≠ [] := by intro e; rw [e] at hv'; cases hv'
+        simp [this]
+    | some ov =>
+      rw [hc] at hx
+      have hov : ov.isEmpty = false := by
+        cases ov with
+        | nil =>
+          obtain ⟨r, hr, _, hr2⟩ := valuesOf_some_mem q.1 stored [] hc
+          exact absurd hr2 (he r hr)
+        | cons _ _ => rfl
+      by_cases hv : q.2.isEmpty = true
+      · simp [hov, hv] at hx
+        subst hx
+        simp
+      · have hv' : q.2.isEmpty = false := by simpa using hv
+        have : q.2 ≠ [] := by intro e; rw [e] at hv'; cases hv'
+        by_cases hd : diffAttributeValues ov q.2 = true
+        · simp [hov, hv', hd] at hx
+          subst hx
+          simp [this]
+        · have hd' : diffAttributeValues ov q.2 = false := by simpa using hd
+          simp [hov, hv', hd'] at hx
+  | inr h =>
+    rw [List.mem_map] at h
+    obtain ⟨q, hq, hqp⟩ := h
+    subst hqp
+    refine ⟨(ModOp.delete, []), rfl, ?_⟩
+    have hqs : q ∈ stored := ((mem_fetch q new stored).1 (List.mem_filter.1 hq).1).1
+    have : valuesOf q.1 stored ≠ none := by
+      intro hnone
+      unfold valuesOf findAttr at hnone
+      rw [Option.map_eq_none_iff, List.find?_eq_none] at hnone
+      exact hnone q hqs (attrEq_refl q.1)
+    simp [this]
+
 /-! ### non-vacuity: a stored entry with a keyed list, an update that changes a value, permutes
     another, clears a third with `[]`, adds a fourth and drops a row -/
 
